@@ -327,6 +327,10 @@ def check_bound(ctx, rule):
                         if r in LEN and l == TH:      # threshold OP len
                             if (op in ("<", "<=") and not e.data["truth"]) or (op in (">=", ">") and e.data["truth"]):
                                 okb = True
+            # leaving the loop because the buffer is empty retains nothing
+            tail = [e for e in evs if e.kind == "assume" and e.idx > last_store]
+            if tail and show(tail[-1].data["cond"]) in LEN and not tail[-1].data["truth"]:
+                okb = True
             if tn is None and not okb:
                 # threshold not even consulted on this break path
                 pass
@@ -443,6 +447,27 @@ def check_discard(ctx, rule):
             else:
                 ctx.violated(rule, f.short, f"the buffer is cut at {show(lo)[:70]}: not at the earliest known tag nor at the last '<' - a partially received message can be cut into, so delivery depends on fragmentation", fi=f, node=e.node, text=f"provenance:{show(lo)[:40]}")
                 bad = True
+        # a path that leaves the buffer untouched must have established that nothing in front can be dropped:
+        # the earliest known tag is at position 0, or no known tag exists and the last '<' is at position 0
+        if pa.outcome == "return" and not data_stores(pa):
+            n += 1
+            zero_terms = []
+            for e in pa.assumes():
+                c = e.data["cond"]
+                if isinstance(c, Term) and c.op == "cmp" and isinstance(c.args[1], Term) and it.bounds_of(c.args[1]) == (0, 0):
+                    zero_terms.append(c.args[1])
+            def _leaves_in(t, pool):
+                ls = []
+                _find_leaves(t, ls)
+                return bool(ls) and all(any(l is x for x in pool) for l in ls)
+            tag_at_zero = any(it.bounds_of(t) == (0, 0) for t in tagfinds) or any(_leaves_in(t, tagfinds) for t in zero_terms)
+            none_found = bool(tagfinds) and len(notfound) == len(tagfinds)
+            rf_zero = any(it.bounds_of(t) == (0, 0) for t in rfinds) or any(_leaves_in(t, rfinds) for t in zero_terms)
+            empty_tags = not tagfinds and any(e.kind == "loop-enter" and e.data["n"] == 0 for e in pa.events)
+            if not (tag_at_zero or ((none_found or empty_tags) and rf_zero)):
+                conds = [f"{show(e.data['cond'])[:40]}={e.data['truth']}" for e in pa.assumes()][:4]
+                ctx.violated(rule, f.short, f"a path returns without trimming the buffer although it has not established that the earliest known tag (or the only '<') is at position 0 (assumptions: {conds}): junk in front of a valid message is kept, so the message behind it is not delivered until the threshold forces a cleanup - never, when the threshold is disabled", fi=f, text=f"untrimmed:{conds[:1]}")
+                bad = True
         # loop over the tags: complete unless position 0 was found
         for ex in [e for e in pa.events if e.kind == "loop-exit" and e.data["how"] == "break"]:
             zero = [a for a in pa.assumes() if a.data["truth"] and isinstance(a.data["cond"], Term) and a.data["cond"].op == "cmp" and a.data["cond"].args[0] == "==" and show(a.data["cond"].args[2]) == "0"]
@@ -529,3 +554,66 @@ def check_append(ctx, rule):
                 if isinstance(n_, ast.Call) and isinstance(n_.func, ast.Attribute) and n_.func.attr in ("seek", "read", "readline", "truncate") and "buffer" in ast.unparse(n_.func.value):
                     bad.append(fi)
     ctx.check(not bad, rule, f"{B.short} stream position", "the StringIO is only written, so tell() is its length", f"{[b.short for b in bad]} move the StringIO position: data_len (tell()) no longer equals the text length", ci=B, text="seek")
+
+
+def check_aux(ctx, rule):
+    """Framing state must be the buffer text alone - or every cached scan attribute must be
+    re-initialised whenever the front of the buffer is dropped (a stale offset skips characters)."""
+    import ast
+
+    p = ctx.p
+    Bc = buf_cls(p)
+    base = {"buffer", "max_buffer_size_before_frontal_cleanup", "allowed_tags", "data"}
+    init = Bc.methods.get("__init__")
+    stored = {}
+    for fi in list(Bc.methods.values()) + list(Bc.setters.values()) + list(Bc.getters.values()):
+        for n_ in ast.walk(fi.node):
+            tg = []
+            if isinstance(n_, ast.Assign):
+                tg = n_.targets
+            elif isinstance(n_, (ast.AugAssign, ast.AnnAssign)):
+                tg = [n_.target]
+            for t in tg:
+                for sub in ast.walk(t):
+                    if isinstance(sub, ast.Attribute) and isinstance(sub.value, ast.Name) and sub.value.id == "self" and isinstance(sub.ctx, ast.Store) and sub.attr not in base:
+                        stored.setdefault(sub.attr, []).append(fi)
+    if not stored:
+        ctx.holds(rule, Bc.short, "the framing state is the buffer text alone (no cached scan attributes)", ci=Bc)
+        return
+    init_vals = {}
+    for pa in run_method(p, init):
+        for e in pa.events:
+            if e.kind == "store" and e.data.get("attr") in stored and show(e.data["base"]) == "self":
+                init_vals[e.data["attr"]] = e.data["value"]
+    setter = Bc.find_setter("data")
+    for attr in sorted(stored):
+        iv = init_vals.get(attr)
+        if iv is None or not isinstance(iv, Const):
+            ctx.undecided(rule, Bc.short, f"cached attribute {attr} has no constant initial value", ci=Bc)
+            continue
+
+        def resets(pa, after_idx):
+            return any(e.kind == "store" and e.data.get("attr") == attr and show(e.data["base"]) == "self" and isinstance(e.data["value"], Const) and e.data["value"].v == iv.v and e.idx > after_idx for e in pa.events)
+
+        # the data setter itself resets it -> every truncation is covered
+        if setter is not None and all(resets(pa, -1) for pa in run_method(p, setter) if pa.outcome == "return"):
+            ctx.holds(rule, f"{Bc.short}.{attr}", "re-initialised by the data setter on every assignment of the buffer text", ci=Bc)
+            continue
+        bad = False
+        nst = 0
+        for fi in list(Bc.methods.values()):
+            if fi.name in ("__init__", "append"):
+                continue
+            for pa in run_method(p, fi, opts={"max_for": 2, "max_while": 1}):
+                if pa.outcome != "return":
+                    continue
+                for e in data_stores(pa):
+                    k, amt = classify_store(pa.interp, e.data["value"])
+                    if k == "same":
+                        continue
+                    nst += 1
+                    if not resets(pa, e.idx):
+                        ctx.violated(rule, fi.short, f"the cached scan state '{attr}' is not re-initialised after the buffer text is replaced by {show(e.data['value'])[:50]} on one path of {fi.name}: the next scan starts at a stale offset and skips (or re-reads) characters, so delivery depends on how the stream was cut", fi=fi, node=e.node, text=f"stale:{attr}:{fi.name}:{show(e.data['value'])[:30]}")
+                        bad = True
+        if not bad:
+            ctx.holds(rule, f"{Bc.short}.{attr}", f"re-initialised after each of the {nst} buffer truncations on every path", ci=Bc)
